@@ -12,11 +12,12 @@ const spec = JSON.parse(readFileSync(process.argv[2], "utf8"));
 const MEM = new ArrayBuffer(4096);
 const calls = [];
 const allocs = [];
+const allocLog = [];
 let nextAlloc = 1024;
 const wasm = new Proxy({ memory: { buffer: MEM } }, {
   get(t, name) {
     if (name in t) return t[name];
-    if (name === "diplomat_alloc") return (size, align) => { allocs.push([size, align]); const p = nextAlloc; nextAlloc += 256; return p; };
+    if (name === "diplomat_alloc") return (size, align) => { allocs.push([size, align]); let p = nextAlloc; nextAlloc += 256; if (nextAlloc > 3800) nextAlloc = 1024; allocLog.push([size, align, p]); return p; };
     if (name === "diplomat_free") return () => {};
     if (name === "then") return undefined;
     return (...args) => { calls.push({ name: String(name), args: args.map(a => (typeof a === "bigint" ? "n" + a.toString() : a)) }); return 0; };
@@ -220,13 +221,16 @@ for (const sname of Object.keys(spec.structs)) {
             tokens[l.path] = (l.kind === "enum") ? l.variants[0][1] : tok(d);
           }
         }
-        calls.length = 0; allocs.length = 0;
+        calls.length = 0; allocs.length = 0; allocLog.length = 0;
+        new Uint8Array(MEM).fill(0xAA, 1024, 4096);
         try { O[fn](build(sname, assign, "")); } catch (e) { /* conversion of the (all-zero) return value may throw; the call is already recorded */ }
         const c = calls.find(c => c.name === meth.symbol);
-        return { args: c ? c.args : null, tokens, recv: allocs.slice() };
+        const images = {};
+        for (const [sz, al, p] of allocLog) images[p] = { size: sz, align: al, bytes: Array.from(new Uint8Array(MEM, p, Math.min(sz, 200))) };
+        return { args: c ? c.args : null, tokens, recv: allocs.slice(), images };
       };
       const a = runWith("sentinel");
-      res.args = a.args; res.tokens = a.tokens; res.recv = a.recv;
+      res.args = a.args; res.tokens = a.tokens; res.recv = a.recv; res.images = a.images;
       res.args_zero = runWith("zero");
       if (ls.some(l => l.kind === "flag")) res.args_absent = runWith("absent");
     }
